@@ -19,7 +19,6 @@ def main():
         core.shutdown_pool()
         os._exit(2)
     signal.signal(signal.SIGALRM, _expired)
-    signal.alarm(hard)
     ap = argparse.ArgumentParser()
     ap.add_argument("prop")
     ap.add_argument("--tier", default=os.environ.get("VERIF_TIER", "quick"), choices=["quick", "thorough"])
@@ -32,6 +31,7 @@ def main():
     os.makedirs(os.path.join(core.LEAN_DIR, ".lake"), exist_ok=True)
     _tree_lock = open(os.path.join(core.LEAN_DIR, ".lake", "tree.lock"), "w")
     fcntl.flock(_tree_lock, fcntl.LOCK_SH if core.REPO == "/repo" else fcntl.LOCK_EX)
+    signal.alarm(hard)   # the clock starts once the run has the tree (waiting for a development run is not a hang)
 
     def _leave_tree_clean():
         # a development run against another tree (VERIF_REPO) must not leave that tree's generated files in /verif
